@@ -291,6 +291,12 @@ def _type_check_local_reference(expression, ir, errors):
     assert referrent, "Local reference should be non-None after name resolution."
     if isinstance(referrent, ir_data.RuntimeParameter):
         parameter = referrent
+        if not parameter.physical_type_alias.has_field("atomic_type"):
+            # An array-typed parameter; _type_check_parameter reports it.
+            ir_data_utils.builder(expression).type.opaque.CopyFrom(
+                ir_data.OpaqueType()
+            )
+            return
         _set_expression_type_from_physical_type_reference(
             expression, parameter.physical_type_alias.atomic_type.reference, ir
         )
